@@ -167,7 +167,7 @@ RandEnum(seed, e) ==
                 note |-> Maybe(seed, K(20 + e, i, 4), 30, Texts), comment |-> ""]],
    comment |-> ""]
 
-RandRef(seed, r) ==
+RandRef0(seed, r) ==
   LET t1 == Num(seed, K(25 + r, 0, 1), 1, NTables(seed))
       t2 == Num(seed, K(25 + r, 0, 2), 1, NTables(seed))
       two == Coin(seed, K(25 + r, 0, 3), 25) /\ NCols(seed, t1) >= 2 /\ NCols(seed, t2) >= 2
@@ -179,6 +179,18 @@ RandRef(seed, r) ==
       right |-> ColAddr(seed, K(25 + r, 0, 10), t2, IF two THEN <<2, 1>> ELSE <<c2>>),
       onupdate |-> Pick(seed, K(25 + r, 0, 11), Actions), ondelete |-> Pick(seed, K(25 + r, 0, 12), Actions),
       comment |-> ""]
+
+\* mirror twins: a reference may be the previous one seen from the other side (sides swapped, kind flipped) or the same
+\* columns under the sibling kind ( > and - hold the key on the same side): two DISTINCT references that say the same
+\* thing and render to the same SQL statement
+Flip(k) == CASE k = ">" -> "<" [] k = "<" -> ">" [] OTHER -> k
+RandRef(seed, r) ==
+  IF r > 1 /\ Coin(seed, K(25 + r, 0, 13), 18)
+  THEN LET p == RandRef0(seed, r - 1) IN
+       IF Coin(seed, K(25 + r, 0, 14), 50) /\ p.type \in {">", "<"}
+       THEN [p EXCEPT !.left = p.right, !.right = p.left, !.type = Flip(p.type)]
+       ELSE [p EXCEPT !.type = CASE p.type = ">" -> "-" [] p.type = "-" -> ">" [] p.type = "<" -> "<>" [] OTHER -> "<"]
+  ELSE RandRef0(seed, r)
 
 RandGroup(seed, g) ==
   LET n == Num(seed, K(30 + g, 0, 1), 0, NTables(seed))
